@@ -25,16 +25,26 @@ SnapSet(e, c) == IF Crossable(e, c) THEN {c}
 
 \* ------------------------------------------------------------------ ALGORITHM
 \* _get_pixel_id along one axis, in exact arithmetic (cellsize = |s|/den = (max-min)/(n-1)):
-\*   "trunc" : int(abs(point - coords[0]) / cellsize)            -- the code as of this writing
-\*   "round" : int(abs(point - coords[0]) / cellsize + 0.5)      -- nearest centre
+\*   "round" : int(abs(point - coords[0]) / cellsize + 0.5)      -- THE CODE (since fix 1c57f27): nearest
+\*             centre, round-half-up.  A point exactly midway between two centres goes to the farther-from-
+\*             origin one; NearestIdx holds both, so either choice satisfies the property (C14 excludes
+\*             midway points from its domain; none is generated).
+\*   "trunc" : int(abs(point - coords[0]) / cellsize)            -- negative twin (the code before the fix)
 Idx(ax, p, variant) ==
   IF variant = "trunc" THEN Abs(p - ax.o) \div Abs(ax.s)
   ELSE (2 * Abs(p - ax.o) + Abs(ax.s)) \div (2 * Abs(ax.s))
 
-\* _find_nearest_pixel: row-major scan keeping the first strictly nearer crossable cell.
+\* midway points (outside the domain): the code's choice is still one of the nearest centres
+MidwayStillNearest(ax) == \A i \in 0..ax.n-2 :
+   LET fine == [den |-> 2 * ax.den, o |-> 2 * ax.o, s |-> 2 * ax.s, n |-> ax.n]
+       p == 2 * ax.o + (2 * i + 1) * ax.s
+   IN NearestIdx(fine, p) = {i, i + 1} /\ Idx(fine, p, "round") \in NearestIdx(fine, p)
+
+\* _find_nearest_pixel: row-major scan keeping the first strictly nearer crossable cell
+\* (squared distances order like the float distances the code compares).
+\*   "infinit" : min_distance starts at infinity                  -- THE CODE (since fix a4d4ad0)
 \*   "maxinit" : min_distance starts at the largest possible distance, test `d < min_distance`
-\*               (the code as of this writing; squared distances order like the float distances)
-\*   "infinit" : min_distance starts at infinity
+\*               -- negative twin (the code before the fix: the opposite corner is never found)
 RECURSIVE Scan(_, _, _, _, _)
 Scan(e, c, k, best, bestD) ==
   IF k = NCells(e) THEN best
